@@ -1295,6 +1295,37 @@ def check_grid(run, X, base, cdtype, tcls, Mx, aligned, uniform, rng=None, only=
     exp_f[inside] = X[tuple(I[inside].T)]
     vcheck("is_filled", lambda: mk().is_filled(P.copy()),
            lambda g: np.asarray(g).shape == exp_f.shape and np.array_equal(np.asarray(g).astype(bool), exp_f), k_enc)
+    # ---- the same maps on ONE grid object across a move: query (this caches the inverse
+    # transform), move the grid, query again.  The expected values come from the moved matrix.
+    for kind in ("apply_translation", "apply_transform:translation", "apply_scale", "apply_transform:rigid"):
+        tvec = np.array([0.75, -1.5, 2.25]) * max(scale, 1e-9)
+        if kind == "apply_scale":
+            T = np.diag([2.0, 2.0, 2.0, 1.0])
+        elif kind == "apply_transform:rigid":
+            T = trimesh.transformations.rotation_matrix(0.4, [0.2, -0.5, 0.8], point=[0.1, 0.2, 0.3])
+        else:
+            T = trimesh.transformations.translation_matrix(tvec)
+        M2 = T @ Mx
+        P2 = (I + off) @ M2[:3, :3].T + M2[:3, 3]
+        exp2 = I.astype(float) @ M2[:3, :3].T + M2[:3, 3]
+        atol2 = 1e-9 * (np.abs(M2[:3, :3]).max() * 12 + max(1.0, float(np.abs(M2[:3, 3]).max())))
+
+        def moved(kind=kind, T=T, P2=P2, tvec=tvec):
+            vg = mk()
+            vg.is_filled(P.copy())
+            vg.points_to_indices(P.copy())
+            if kind == "apply_translation":
+                vg.apply_translation(tvec)
+            elif kind == "apply_scale":
+                vg.apply_scale(2.0)
+            else:
+                vg.apply_transform(T.copy())
+            return (np.asarray(vg.points_to_indices(P2.copy())), np.asarray(vg.is_filled(P2.copy())).astype(bool),
+                    np.asarray(vg.indices_to_points(I.copy())))
+
+        vcheck("query_move_query:" + kind, moved,
+               lambda g, exp2=exp2, atol2=atol2: np.array_equal(g[0], I) and np.array_equal(g[1], exp_f)
+               and np.allclose(g[2], exp2, rtol=0, atol=atol2), k_tf)
     cellvol = abs(np.linalg.det(L))
     nfill = int(X.sum())
     vcheck("filled_count", lambda: mk().filled_count, lambda g: int(g) == nfill, k_enc)
